@@ -67,7 +67,7 @@ fn inproc_case(t: &mut Tape, _w: &Worker) -> CaseResult {
     out.nontrivial = nontrivial(&cs.labels, with_payload);
     out.fingerprint = fnv64(&bytes);
     out.labels = cs.labels;
-    if t.used() % 97 == 0 {
+    if _w.take_sample() {
         out.sample = Some(json!({"kind": "inproc", "stream": stream_summary(&cs.stream, &bytes)}));
     }
     Ok(out)
@@ -172,7 +172,7 @@ fn cli_case(t0: &mut Tape, w: &Worker) -> CaseResult {
     out.labels.sort();
     out.labels.dedup();
     out.execs = case.execs;
-    if t0.used() % 41 == 0 {
+    if w.take_sample() {
         out.sample = Some(json!({"kind": "cli", "stream": stream_summary(&cs.stream, &bytes), "modes": 5, "runs": case.execs}));
     }
     Ok(out)
